@@ -18,6 +18,38 @@ def check(ix, rep):
     # 0. every operation is stepped exactly once per update: a second step appends the same chunk twice to its buffers
     from sa.rules import step
     step.check_step(ix, rep, mon)
+    # 0a. a batch is consumed once: the input table is emptied between two updates, so a variable left out of the next
+    #     update() contributes no samples instead of replaying its previous batch
+    from sa import flow
+    for meth in ('update', 'update_final'):
+        uf = ix.resolve_method(mon.cls, meth)
+        if uf is None:
+            continue
+        rep.analysed(uf)
+        cfg = flow.CFG(uf.node)
+        dom = cfg.dominators()
+
+        def clears(s_, dn):
+            if not (isinstance(s_, ast.Assign) and any(ast.unparse(t).endswith('var_object_dict') for t in s_.targets)):
+                return False
+            v = s_.value
+            if isinstance(v, ast.Call) and isinstance(v.func, ast.Attribute) and v.func.attr == 'fromkeys' and len(v.args) == 2 \
+                    and isinstance(v.args[1], ast.List) and not v.args[1].elts:
+                return True
+            if isinstance(v, ast.DictComp) and isinstance(v.value, ast.List) and not v.value.elts:
+                return True
+            return False
+        rets = [r for r in ast.walk(uf.node) if isinstance(r, ast.Return)]
+        bad = [r for r in rets if not flow.dominated_by(cfg, dom, r, clears)]
+        slot = 'dense-online:input-table:%s' % meth
+        if rets and not bad:
+            rep.ok('R-STATE', uf.module.rel, uf.qual, slot, 'every return is dominated by re-initialising the input table with empty sample lists', uf.node.lineno)
+        else:
+            rep.fail('R-STATE', uf.module.rel, uf.qual, slot, '%s() returns without emptying ast.var_object_dict: a variable that is left out of the next update (legal: it has no new '
+                     'samples) is fed its previous batch again, so the output depends on how the input was split into updates' % meth, (bad[0].lineno if bad else uf.node.lineno))
+    # 0b. no operation mutates or keeps an alias of a list it was handed: the same batch reaches several consumers
+    from sa.rules import ownrule
+    ownrule.run(ix, rep)
     # 1. sibling uniformity of the binary operations
     for nc, c in sorted(ops.items()):
         if '.dense_time.' not in c.module.name:
